@@ -42,126 +42,10 @@ def check(model, R, tier):
     tr = model.func(TR + '.__train')
     va = model.func(TR + '.__validate')
     te = model.func(TR + '.test')
-    # ---------------------------------------------------------------- STEP
-    lp = batch_loop(tr, tr.pos_params[1])
-    cfg = CFG(tr.node)
-    z = [c for c in _calls(lp, 'self.optimizer.zero_grad')]
-    s = [c for c in _calls(lp, 'self.optimizer.step')]
-    b = [c for c in ast.walk(lp) if isinstance(c, ast.Call) and isinstance(c.func, ast.Attribute) and c.func.attr == 'backward']
-    ok = len(z) == len(s) == len(b) == 1
-    R.ob('C20.STEP', tr.qualname, 'zero_grad x%d, backward x%d, step x%d per iteration' % (len(z), len(b), len(s)), ok, 'exactly one of each per batch', tr.loc)
-    if ok:
-        sz, sb, ss = _stmt_of(tr, z[0]), _stmt_of(tr, b[0]), _stmt_of(tr, s[0])
-        direct = all(st in lp.body for st in (sz, sb, ss))
-        order = direct and lp.body.index(sz) < lp.body.index(sb) < lp.body.index(ss)
-        R.ob('C20.STEP', tr.qualname, 'order %s' % [norm(x) for x in sorted((sz, sb, ss), key=lambda x: x.lineno)], order,
-             'gradients must be cleared before backward and the step taken after it, all three directly in the loop body (not conditional, not in an inner loop)', '%s:%d' % (tr.mod.relpath, lp.lineno))
-        loss = b[0].func.value
-        binds = [n for n in lp.body if isinstance(n, ast.Assign) and norm(n.targets[0]) == norm(loss)]
-        okl = len(binds) == 1 and isinstance(binds[0].value, ast.Call) and norm(binds[0].value.func) == 'self.criterion' and binds[0].lineno < sb.lineno
-        if okl:
-            args = [norm(a) for a in binds[0].value.args]
-            outs = [n for n in lp.body if isinstance(n, ast.Assign) and norm(n.targets[0]) == args[0]]
-            okl = len(outs) == 1 and 'self.model(' in norm(outs[0].value) and outs[0].lineno < binds[0].lineno
-            unpack = [n for n in lp.body if isinstance(n, ast.Assign) and isinstance(n.targets[0], ast.Tuple) and args[1] in [norm(e) for e in n.targets[0].elts]]
-            data_var = norm(lp.target.elts[-1]) if isinstance(lp.target, ast.Tuple) else norm(lp.target)
-            okl = okl and len(unpack) == 1 and norm(unpack[0].value) == data_var
-        R.ob('C20.STEP', tr.qualname, 'differentiated loss = %s' % (norm(binds[0].value) if binds else None), okl, 'the loss that is differentiated must be criterion(model(inputs), labels) of THIS batch', tr.loc)
-    fcfg = CFG(fit.node)
-    eloops = [n for n in body_walk(fit.node) if isinstance(n, ast.For) and norm(n.iter) == 'range(epochs)']
-    tcalls = _calls(fit.node, 'self.__train')
-    ok = len(eloops) == 1 and len(tcalls) == 1
-    if ok:
-        st = _stmt_of(fit, tcalls[0])
-        ok = st in eloops[0].body and [norm(a) for a in tcalls[0].args][:1] == [fit.pos_params[1]]
-    R.ob('C20.STEP', fit.qualname, '__train once per epoch in for epoch in range(epochs)', ok, 'updates = epochs x len(train_loader) needs exactly one unconditional __train(train_loader) per epoch', fit.loc)
-    # ---------------------------------------------------------------- TRAINMODE
-    tm = [_stmt_of(tr, c) for c in _calls(tr.node, 'self.model.train')]
-    ev = [_stmt_of(tr, c) for c in _calls(tr.node, 'self.model.eval')]
-    ok = len(tm) >= 1 and any(cfg.dominates(t, lp) and not cfg.conditions(t) for t in tm) and not ev
-    R.ob('C20.TRAINMODE', tr.qualname, 'model.train() before the batch loop', ok, 'every update must be computed in training mode', tr.loc)
-    if eloops:
-        tm2 = [_stmt_of(fit, c) for c in _calls(eloops[0], 'self.model.train')]
-        st = _stmt_of(fit, tcalls[0]) if tcalls else None
-        ok2 = bool(tm2) and st is not None and tm2[0] in eloops[0].body and eloops[0].body.index(tm2[0]) < eloops[0].body.index(st)
-        R.ob('C20.TRAINMODE', fit.qualname, 'model.train() at the start of every epoch', ok2 or ok, 'validation leaves the model in eval mode: each epoch must switch back', fit.loc)
-    # ---------------------------------------------------------------- EVAL
-    for f, loader in ((va, va.pos_params[1]), (te, te.pos_params[1])):
-        c2 = CFG(f.node)
-        try:
-            l2 = batch_loop(f, loader)
-        except Incomplete as e:
-            R.incomplete_at('C20.EVAL', f.qualname, str(e))
-            continue
-        evs = [_stmt_of(f, c) for c in _calls(f.node, 'self.model.eval')]
-        ok = bool(evs) and c2.dominates(evs[0], l2) and not c2.conditions(evs[0])
-        R.ob('C20.EVAL', f.qualname, 'model.eval() before the loop', ok, 'evaluation must run in eval mode', f.loc)
-        withs = [w for w, fld in c2.enclosing(l2) if isinstance(w, ast.With)]
-        okw = any(isinstance(it.context_expr, ast.Call) and norm(it.context_expr.func).endswith('.no_grad') and it.optional_vars is None for w in withs for it in w.items)
-        R.ob('C20.EVAL', f.qualname, 'loop inside with %s' % [norm(it.context_expr) for w in withs for it in w.items], okw, 'evaluation must not track gradients; the manager must be built in the with header so that exit restores the mode', f.loc)
-        bad = [norm(c.func) for c in ast.walk(f.node) if isinstance(c, ast.Call) and isinstance(c.func, ast.Attribute)
-               and (c.func.attr in ('backward', 'zero_grad') or norm(c.func) in ('self.optimizer.step', 'self.model.train') or (c.func.attr == 'step' and 'optimizer' in norm(c.func)))]
-        R.ob('C20.EVAL', f.qualname, 'no update calls in evaluation: %s' % bad, not bad, 'validation / test must not change parameters or mode', f.loc)
-    # ---------------------------------------------------------------- HISTORY
-    rm = model.funcs.get(TR + '.fit.record_metrics')
-    if rm is None:
-        R.incomplete_at('C20.HISTORY', fit.qualname, 'record_metrics helper not found')
-    else:
-        d, m = rm.pos_params[0], rm.pos_params[1]
-        loops = [n for n in rm.node.body if isinstance(n, ast.For) and norm(n.iter) == m]
-        ok = len(loops) == 1
-        if ok:
-            l3 = loops[0]
-            k, v = [norm(e) for e in l3.target.elts] if isinstance(l3.target, ast.Tuple) else (None, None)
-            c3 = CFG(rm.node)
-            apps = [n for n in ast.walk(l3) if isinstance(n, ast.Expr) and isinstance(n.value, ast.Call) and norm(n.value) == '%s[%s].append(%s)' % (d, k, v)]
-            news = [n for n in ast.walk(l3) if isinstance(n, ast.Assign) and norm(n.targets[0]) == '%s[%s]' % (d, k) and norm(n.value) == '[%s]' % v]
-            ok = len(apps) == 1 and len(news) == 1
-            if ok:
-                fa = {(t, p) for t, p, _ in facts_at(c3, apps[0]) if d in t}
-                fn_ = {(t, p) for t, p, _ in facts_at(c3, news[0]) if d in t}
-                ok = len(fa) == 1 and len(fn_) == 1 and list(fa)[0][0] == list(fn_)[0][0] and list(fa)[0][1] != list(fn_)[0][1]
-        R.ob('C20.HISTORY', rm.qualname, 'one value per key per call (append | create)', ok, 'each recorded metric must add exactly one history entry', rm.loc)
-        rcalls = [c for c in ast.walk(fit.node) if isinstance(c, ast.Call) and norm(c.func) == 'record_metrics']
-        okh = len(rcalls) == 2 and bool(eloops)
-        if okh:
-            sts = [_stmt_of(fit, c) for c in rcalls]
-            args = [[norm(a) for a in c.args] for c in rcalls]
-            tvar = norm(_stmt_of(fit, tcalls[0]).targets[0]) if tcalls else None
-            vcalls = _calls(fit.node, 'self.__validate')
-            vvar = norm(_stmt_of(fit, vcalls[0]).targets[0]) if vcalls else None
-            f0 = {(t, p) for t, p, _ in facts_at(fcfg, sts[0])}
-            f1 = {(t, p) for t, p, _ in facts_at(fcfg, sts[1])}
-            vl = fit.pos_params[3]
-            okh = args[0] == ['self.history', tvar] and args[1] == ['self.history', vvar] and not [x for x in f0 if vl in x[0]] and ('%s is not None' % vl, True) in f1 \
-                and all(not [l for l in fcfg.in_loop(s) if l is not eloops[0]] for s in sts) and fcfg.in_loop(sts[0]) == [eloops[0]]
-            vst = _stmt_of(fit, vcalls[0]) if vcalls else None
-            okh = okh and vst is not None and ('%s is not None' % vl, True) in {(t, p) for t, p, _ in facts_at(fcfg, vst)}
-        R.ob('C20.HISTORY', fit.qualname, 'record_metrics(train) every epoch; record_metrics(val) iff validation_loader', okh, 'history must get one entry per epoch for every metric', fit.loc)
-        hinit = [n for n in body_walk(fit.node) if isinstance(n, ast.Assign) and norm(n.targets[0]) == 'self.history' and norm(n.value) in ('{}', 'dict()')]
-        R.ob('C20.HISTORY', fit.qualname, 'self.history = {} before the epochs', len(hinit) == 1 and bool(eloops) and fcfg.dominates(hinit[0], eloops[0]) and not fcfg.in_loop(hinit[0]) and len([n for n in ast.walk(fit.node) if isinstance(n, ast.Assign) and norm(n.targets[0]) == 'self.history']) == 1, 'history starts empty once per fit and is never re-created inside the epoch loop', fit.loc)
-        last = fit.node.body[-1]
-        R.ob('C20.HISTORY', fit.qualname, norm(last), isinstance(last, ast.Return) and norm(last.value) == 'self.history', 'fit returns the history', fit.loc)
-    for f, key, acc_name in ((tr, "'loss'", None), (va, "'val_loss'", None)):
-        c2 = CFG(f.node)
-        l2 = batch_loop(f, f.pos_params[1])
-        ivar = norm(l2.target.elts[0]) if isinstance(l2.target, ast.Tuple) and isinstance(l2.iter, ast.Call) and dotted(l2.iter.func) == 'enumerate' else None
-        accs = [n for n in ast.walk(l2) if isinstance(n, ast.AugAssign) and isinstance(n.op, ast.Add) and '.item()' in norm(n.value)]
-        rets = [n for n in body_walk(f.node) if isinstance(n, ast.Return)]
-        ok = len(accs) == 1 and len(rets) == 1 and ivar is not None
-        if ok:
-            acc = norm(accs[0].target)
-            init0 = [n for n in body_walk(f.node) if isinstance(n, ast.Assign) and norm(n.targets[0]) == acc and norm(n.value) == '0' and c2.dominates(n, l2)]
-            means = [n for n in body_walk(f.node) if isinstance(n, ast.Assign) and isinstance(n.value, ast.BinOp) and isinstance(n.value.op, ast.Div) and norm(n.value.left) == acc and not any(x is n for x in ast.walk(l2))]
-            ok = bool(init0) and len(means) == 1 and norm(means[0].value.right) in ('%s + 1' % ivar, '(%s + 1)' % ivar, 'len(%s)' % f.pos_params[1]) and accs[0] in l2.body
-            if ok:
-                mv = norm(means[0].targets[0])
-                first = rets[0].value.left if isinstance(rets[0].value, ast.BinOp) else rets[0].value
-                ok = norm(first) == '[(%s, %s)]' % (key, mv)
-        R.ob('C20.HISTORY', f.qualname, 'epoch %s = accumulated batch losses / (i + 1)' % key, ok, 'the reported epoch loss must be the mean of the per-batch losses under the key %s' % key, f.loc)
-    pre = [c for c in ast.walk(va.node) if isinstance(c, ast.Call) and isinstance(c.func, ast.Attribute) and c.func.attr in ('step', 'compute') and 'evaluator' in norm(c.func)]
-    okp = bool(pre) and all(any(k.arg == 'prefix' and norm(k.value) == "'val'" for k in c.keywords) for c in pre)
-    R.ob('C20.HISTORY', va.qualname, 'evaluator called with prefix=\'val\' (%d calls)' % len(pre), okp, 'validation metrics must carry the val_ prefix', va.loc)
+    try:
+        check_trainer(model, R)
+    except Incomplete as u:
+        R.incomplete_at('C20.STEP', TR, str(u))
     try:
         check_evaluator(model, R)
     except Incomplete as u:
@@ -302,3 +186,247 @@ def _showm(v):
     if isinstance(v, (list, tuple)):
         return '[' + ', '.join(_showm(x) for x in v) + ']'
     return repr(v)
+
+
+# ------------------------------------------------------------------------------------------------ Trainer on evaluated traces
+class _Obj:
+    def __init__(self, t):
+        self.text = self.loc_text = t
+
+    def __repr__(self):
+        return self.text
+
+
+def _trainer_pe(model, f, with_evaluator, extra_atoms=None):
+    """evaluate a Trainer method; returns outcomes whose .calls is the ordered trace (kernel of the rules below)"""
+    cnt = {'n': 0}
+
+    def hook(pe, name, e, args, kw, env, func, depth):
+        t = pe.calls[-1][0]
+        if t in ('self.criterion', 'self.model'):
+            cnt['n'] += 1
+            return _Obj('%s#%d' % (t.split('.')[-1], cnt['n']))
+        if isinstance(e.func, ast.Attribute) and e.func.attr in ('squeeze', 'item', 'detach', 'unsqueeze', 'flatten', 'reshape', 'float'):
+            v = pe.expr(e.func.value, env, func, depth)
+            if isinstance(v, _Obj):
+                return P.atom('item(%s)' % v.text) if e.func.attr == 'item' else _Obj('%s(%s)' % (e.func.attr, v.text))
+        if t in ('self.evaluator.step', 'self.evaluator.compute'):
+            return [('m', P.atom('mv%d' % len(pe.calls)))]
+        if (t or '').startswith('pkbar.') or (name or '').startswith('pkbar.'):
+            return Opaque('kbar')
+        return NotImplemented
+
+    def loop_hook(pe, s, env):
+        it = s.iter
+        if isinstance(it, ast.Call) and norm(it.func) == 'enumerate' and isinstance(s.target, ast.Tuple) and len(s.target.elts) == 2 and isinstance(s.target.elts[0], ast.Name) and it.args:
+            src = pe.loc_text(it.args[0], env, pe.curf, 0) if isinstance(it.args[0], (ast.Name, ast.Attribute)) else norm(it.args[0])
+            env[s.target.elts[0].id] = P.atom('len(%s)' % src) - 1          # value of the index after the last of len(src) iterations
+            pe.assign(s.target.elts[1], _Obj('batch(%s)' % src), env, pe.curf, 0, s)
+            return True
+        if isinstance(s.target, ast.Name) and isinstance(it, (ast.Name, ast.Attribute)):
+            src = pe.loc_text(it, env, pe.curf, 0)
+            env[s.target.id] = _Obj('batch(%s)' % src)
+            return True
+        return False
+    atoms = dict(extra_atoms or {})
+    if not with_evaluator:
+        atoms['self.evaluator'] = None
+    pe = PE(model, atoms=atoms, call_hook=hook, loop_hook=loop_hook, atoms_not_none=True, max_depth=4)
+    pe.curf = f
+    return pe
+
+
+def _segments(calls):
+    """-> list of (depth of enclosing loops, inside no_grad?, text, args, kw) for real calls, plus loop begin / end markers"""
+    out, loops, withs = [], [], []
+    for t, a, kw, node in calls:
+        if t == '<loop-begin>':
+            loops.append(a[1])
+            out.append(('<loop>', tuple(loops), tuple(withs), a, kw))
+        elif t == '<loop-end>':
+            loops.pop()
+        elif t == '<with-begin>':
+            withs.append(tuple(a))
+        elif t == '<with-end>':
+            withs.pop()
+        else:
+            out.append((t, tuple(loops), tuple(withs), a, kw))
+    return out
+
+
+def check_trainer(model, R):
+    fit = model.func(TR + '.fit')
+    tr = model.func(TR + '.__train')
+    va = model.func(TR + '.__validate')
+    te = model.func(TR + '.test')
+    A = P.atom
+    # ---------------------------------------------------------------- __train : STEP / TRAINMODE / epoch loss
+    for with_ev in (False, True):
+        tag = 'with evaluator' if with_ev else 'without evaluator'
+        pe = _trainer_pe(model, tr, with_ev)
+        loader = tr.pos_params[1]
+        outs = pe.paths(tr, {p_: A(p_) for p_ in tr.pos_params[1:]})
+        rets_ = [o for o in outs if o.kind == 'return']
+        if not rets_:
+            R.incomplete_at('C20.STEP', tr.qualname, '[%s] no returning path: %s' % (tag, [(o.kind, o.conds[-2:]) for o in outs][:3]))
+            continue
+        for o in rets_:
+            if len(rets_) > 1:
+                tag = '%s, under %s' % (tag.split(', under')[0], [c for c in o.conds][-2:])
+            seg = _segments(o.calls)
+            inloop = [x for x in seg if x[1] and loader in x[1][0] and x[0] != '<loop>']
+            names = [x[0] for x in inloop]
+            zg = [i for i, n_ in enumerate(names) if n_ == 'self.optimizer.zero_grad']
+            st = [i for i, n_ in enumerate(names) if n_ == 'self.optimizer.step']
+            bw = [i for i, n_ in enumerate(names) if n_.endswith('.backward')]
+            cr = [i for i, n_ in enumerate(names) if n_ == 'self.criterion']
+            md = [i for i, n_ in enumerate(names) if n_ == 'self.model']
+            nloops = len([x for x in seg if x[0] == '<loop>'])
+            ok = len(zg) == len(st) == len(bw) == 1 and nloops == 1 and all(len(x[1]) == 1 for x in inloop if x[0] in ('self.optimizer.zero_grad', 'self.optimizer.step') or x[0].endswith('.backward'))
+            R.ob('C20.STEP', tr.qualname, '[%s] per batch: zero_grad x%d, backward x%d, step x%d' % (tag, len(zg), len(bw), len(st)), ok, 'exactly one of each per batch, directly in the one batch loop', tr.loc)
+            if ok:
+                order = zg[0] < bw[0] < st[0]
+                R.ob('C20.STEP', tr.qualname, '[%s] order %s' % (tag, [names[i] for i in sorted((zg[0], bw[0], st[0]))]), order,
+                     'gradients must be cleared before backward and the step taken after it', tr.loc)
+                okl = len(cr) == 1 and len(md) == 1 and md[0] < cr[0] < bw[0] and names[bw[0]].startswith('criterion#')
+                if okl:
+                    a = inloop[cr[0]][3]
+                    okl = len(a) >= 2 and isinstance(a[0], _Obj) and 'model#' in a[0].text and 'batch(%s)' % loader in getattr(a[1], 'text', str(a[1])) \
+                        and 'batch(%s)' % loader in ' '.join(getattr(x, 'text', str(x)) for x in inloop[md[0]][3])
+                R.ob('C20.STEP', tr.qualname, '[%s] differentiated loss = %s(%s)' % (tag, names[bw[0]].rsplit('.', 1)[0], [repr(x) for x in inloop[cr[0]][3]][:2] if cr else None), bool(okl),
+                     'the loss that is differentiated must be criterion(model(inputs), labels) of THIS batch', tr.loc)
+            # train mode before the loop, no eval
+            pre = [x[0] for x in seg if not x[1]]
+            first_loop = [i for i, x in enumerate(seg) if x[0] == '<loop>']
+            before = [x[0] for x in seg[:first_loop[0]]] if first_loop else []
+            R.ob('C20.TRAINMODE', tr.qualname, '[%s] model.train() before the batch loop' % tag, 'self.model.train' in before and 'self.model.eval' not in [x[0] for x in seg], 'every update must be computed in training mode', tr.loc)
+            # epoch loss
+            v = o.value
+            T_ = None
+            if isinstance(v, list) and v and isinstance(v[0], tuple):
+                T_ = v[0]
+            want = A('item(%s)' % names[bw[0]].rsplit('.', 1)[0]) / A('len(%s)' % loader) if ok else None
+            okm = T_ is not None and T_[0] == 'loss' and isinstance(T_[1], P) and want is not None and T_[1] == want
+            R.ob('C20.HISTORY', tr.qualname, "[%s] epoch 'loss' = %s" % (tag, T_[1].canon() if T_ and isinstance(T_[1], P) else T_), okm,
+                 "the reported epoch loss must be the sum of the per-batch losses divided by the number of batches, under the key 'loss' (first entry)", tr.loc)
+            if with_ev:
+                evs = [x for x in seg if x[0] in ('self.evaluator.step', 'self.evaluator.compute')]
+                okp = all(x[4].get('prefix') is None and len(x[3]) <= (2 if x[0].endswith('step') else 0) for x in evs) and len([x for x in evs if x[0].endswith('compute')]) == 1 and not [x for x in evs if x[0].endswith('compute') and x[1]]
+                R.ob('C20.HISTORY', tr.qualname, 'evaluator: step per batch without prefix, compute once after the loop', okp and isinstance(v, list) and len(v) == 2, 'training metrics are unprefixed; the epoch metrics are computed once after the last batch', tr.loc)
+    # ---------------------------------------------------------------- __validate / test : EVAL
+    for f in (va, te):
+        for with_ev in (False, True):
+            tag = 'with evaluator' if with_ev else 'without evaluator'
+            pe = _trainer_pe(model, f, with_ev)
+            loader = f.pos_params[1]
+            try:
+                outs = pe.paths(f, {p_: A(p_) for p_ in f.pos_params[1:]})
+            except Incomplete as u:
+                R.incomplete_at('C20.EVAL', f.qualname, str(u))
+                continue
+            rets = [o for o in outs if o.kind in ('return', 'fall')]
+            if not rets:
+                R.incomplete_at('C20.EVAL', f.qualname, 'no returning path')
+                continue
+            for o in rets[:1]:
+                seg = _segments(o.calls)
+                first_loop = [i for i, x in enumerate(seg) if x[0] == '<loop>' and loader in x[1][-1]]
+                before = [x[0] for x in seg[:first_loop[0]]] if first_loop else []
+                R.ob('C20.EVAL', f.qualname, '[%s] model.eval() before the loop' % tag, bool(first_loop) and 'self.model.eval' in before and 'self.model.train' not in [x[0] for x in seg], 'evaluation must run in eval mode', f.loc)
+                lp = seg[first_loop[0]] if first_loop else None
+                okw = lp is not None and any(any(w.replace(' ', '').endswith('.no_grad()') for w in ws) for ws in lp[2])
+                R.ob('C20.EVAL', f.qualname, '[%s] loop inside with %s' % (tag, lp[2] if lp else None), bool(okw), 'evaluation must not track gradients; the manager must be built in the with header so that exit restores the mode', f.loc)
+                bad = [x[0] for x in seg if x[0].endswith('.backward') or x[0].endswith('.zero_grad') or x[0] in ('self.optimizer.step', 'self.model.train') or (x[0].endswith('.step') and 'optimizer' in x[0])]
+                R.ob('C20.EVAL', f.qualname, '[%s] no update calls in evaluation: %s' % (tag, bad), not bad, 'validation / test must not change parameters or mode', f.loc)
+                if f is va:
+                    v = o.value
+                    T_ = v[0] if isinstance(v, list) and v and isinstance(v[0], tuple) else None
+                    crit = [x for x in seg if x[0] == 'self.criterion']
+                    want = A('item(criterion#%s)' % (seg.index(crit[0]) and 0 or 0)) if False else None
+                    items = [x for x in seg if x[0].endswith('.item') and x[0].startswith('criterion#')]
+                    okm = T_ is not None and T_[0] == 'val_loss' and isinstance(T_[1], P) and bool(items) and T_[1] == A('item(%s)' % items[0][0].rsplit('.', 1)[0]) / A('len(%s)' % loader)
+                    R.ob('C20.HISTORY', f.qualname, "[%s] epoch 'val_loss' = %s" % (tag, T_[1].canon() if T_ and isinstance(T_[1], P) else T_), okm,
+                         "the reported validation loss must be the sum of the per-batch losses divided by the number of batches, under the key 'val_loss' (first entry)", f.loc)
+                    if with_ev:
+                        estep = model.func(TMOD + '.Evaluator.step').pos_params[1:]
+                        ecomp = model.func(TMOD + '.Evaluator.compute').pos_params[1:]
+                        evs = [x for x in seg if x[0] in ('self.evaluator.step', 'self.evaluator.compute')]
+                        def prefix_of(x):
+                            ps = estep if x[0].endswith('step') else ecomp
+                            b = dict(zip(ps, x[3]))
+                            b.update(x[4])
+                            return b.get('prefix')
+                        okp = bool(evs) and all(prefix_of(x) == 'val' for x in evs)
+                        R.ob('C20.HISTORY', f.qualname, "evaluator called with prefix='val' (%d calls)" % len(evs), okp, 'validation metrics must carry the val_ prefix', f.loc)
+    # ---------------------------------------------------------------- record_metrics: one entry per key per call
+    rm = model.funcs.get(TR + '.fit.record_metrics')
+    if rm is None:
+        R.incomplete_at('C20.HISTORY', fit.qualname, 'record_metrics helper not found')
+    else:
+        d, mparam = rm.pos_params[0], rm.pos_params[1]
+        V1, V2 = A('v1'), A('v2')
+        for present in (True, False):
+            def dp(t, present=present):
+                if '.get(' in t or ' in ' in t or 'has' in t:
+                    return (present if ' not in ' not in t else not present)
+                if 'issubdtype' in t or 'isinstance' in t:
+                    return True
+                return None
+            outs = PE(model, default_pred=dp, atoms_not_none=True).paths(rm, {d: A(d), mparam: [('k1', V1), ('k2', V2)]})
+            ok = len(outs) == 1 and outs[0].kind in ('fall', 'return')
+            if ok:
+                o = outs[0]
+                apps = [(c[0], c[1]) for c in o.calls if c[0].endswith('.append')]
+                sts = [(k, v) for k, v, st_ in o.stores]
+                if present:
+                    ok = sorted(a[0] for a in apps) == ["%s['k1'].append" % d, "%s['k2'].append" % d] and all(len(a[1]) == 1 for a in apps) and \
+                        {a[0]: a[1][0] for a in apps} == {"%s['k1'].append" % d: V1, "%s['k2'].append" % d: V2} and not sts
+                else:
+                    ok = not apps and sorted(k for k, v in sts) == ["%s['k1']" % d, "%s['k2']" % d] and dict(sts) == {"%s['k1']" % d: [V1], "%s['k2']" % d: [V2]}
+            R.ob('C20.HISTORY', rm.qualname, 'keys %s: one value per key per call' % ('already recorded' if present else 'new'), ok,
+                 'each recorded metric must add exactly one history entry (append to the existing list | create a one-element list)', rm.loc)
+    # ---------------------------------------------------------------- fit: one __train per epoch, record_metrics calls, history bookkeeping
+    for has_val in (True, False):
+        tag = 'validation loader given' if has_val else 'no validation loader'
+        pe = _trainer_pe(model, fit, False)
+        args = {p_: A(p_) for p_ in fit.pos_params[1:]}
+        args['validation_loader'] = A('validation_loader') if has_val else None
+        args['on_train_epoch'] = None
+        args['on_validation_epoch'] = None
+        try:
+            outs = pe.paths(fit, args, max_paths=64)
+        except Incomplete as u:
+            R.incomplete_at('C20.STEP', fit.qualname, str(u))
+            continue
+        rets = [o for o in outs if o.kind == 'return']
+        if not rets:
+            R.incomplete_at('C20.STEP', fit.qualname, '[%s] no returning path' % tag)
+            continue
+        bad_step, bad_hist, bad_mode = [], [], []
+        for o in rets:
+            seg = _segments(o.calls)
+            epoch = [x for x in seg if x[0] == '<loop>' and 'epochs' in x[1][-1] and len(x[1]) == 1]
+            trains = [x for x in seg if x[0] in ('self.__train', 'self._Trainer__train')]
+            vals = [x for x in seg if x[0] in ('self.__validate', 'self._Trainer__validate')]
+            recs = [x for x in seg if x[0] == 'record_metrics']
+            if not (len(epoch) == 1 and len(trains) == 1 and len(trains[0][1]) == 1 and 'epochs' in trains[0][1][0] and _aname(trains[0][3][0]) == fit.pos_params[1]):
+                bad_step.append('__train calls %s' % [(x[0], x[1]) for x in trains])
+            want_recs = 2 if has_val else 1
+            okr = len(recs) == want_recs and all(len(x[1]) == 1 and (_aname(x[3][0]) == 'self.history' or isinstance(x[3][0], dict)) for x in recs) and len(vals) == (1 if has_val else 0)
+            if okr:
+                okr = isinstance(recs[0][3][1], list) and recs[0][3][1] and recs[0][3][1][0][0] == 'loss'
+                if has_val:
+                    okr = okr and isinstance(recs[1][3][1], list) and recs[1][3][1] and recs[1][3][1][0][0] == 'val_loss'
+            if not okr:
+                bad_hist.append('record_metrics calls %s' % [(x[1], [k for k, v in x[3][1]] if len(x[3]) > 1 and isinstance(x[3][1], list) else '?') for x in recs])
+            # train mode at the start of every epoch (validation leaves the model in eval mode)
+            ep_calls = [x[0] for x in seg if x[1] and 'epochs' in x[1][0]]
+            if 'self.model.train' not in ep_calls or ('self.optimizer.zero_grad' in ep_calls and ep_calls.index('self.model.train') > ep_calls.index('self.optimizer.zero_grad')):
+                bad_mode.append('calls in the epoch: %s' % ep_calls[:6])
+            hs = [(k, v) for k, v, st_ in o.stores if k == 'self.history']
+            if not (len(hs) == 1 and isinstance(hs[0][1], dict) and (_aname(o.value) == 'self.history' or o.value is hs[0][1])):
+                bad_hist.append('self.history stores %s, returns %r' % (hs, o.value))
+        R.ob('C20.STEP', fit.qualname, '[%s] __train(train_loader) once per epoch' % tag, not bad_step, 'updates = epochs x len(train_loader) needs exactly one unconditional __train(train_loader) per epoch: %s' % bad_step[:1], fit.loc)
+        R.ob('C20.TRAINMODE', fit.qualname, '[%s] model.train() at the start of every epoch' % tag, not bad_mode, 'validation leaves the model in eval mode: each epoch must switch back: %s' % bad_mode[:1], fit.loc)
+        R.ob('C20.HISTORY', fit.qualname, '[%s] record_metrics(train) every epoch; record_metrics(val) iff validation_loader; history = {} once, returned' % tag, not bad_hist,
+             'history must get one entry per epoch for every metric and be returned: %s' % bad_hist[:1], fit.loc)
